@@ -18,13 +18,14 @@ MC_Msgs == [good  |-> [key |-> "k1", src |-> "sA", dest |-> "ex",   ph |-> "p1"]
             id2   |-> [key |-> "k2", src |-> "sA", dest |-> "ex",   ph |-> "p1"],
             id2m  |-> [key |-> "k2", src |-> "sA", dest |-> "mini", ph |-> "p1"],
             id2e  |-> [key |-> "k2", src |-> "sA", dest |-> "ex",   ph |-> "p0"],     \* an EMPTY payload
-            chd   |-> [key |-> "k3", src |-> "sA", dest |-> "mini", ph |-> "p2"]]
+            chd   |-> [key |-> "k3", src |-> "sA", dest |-> "mini", ph |-> "p2"],
+            m32   |-> [key |-> "k3", src |-> "sA", dest |-> "ex",   ph |-> "p32"]]    \* a payload of exactly 32 bytes
 GoodProof == [set |-> "s1", sigs |-> <<"Valid", "Valid">>]
 
 Acts(s) ==
     {[name |-> "ApproveMessages", msgs |-> <<m>>, proof |-> GoodProof, auth |-> {}] : m \in MsgNames}
     \cup {[name |-> "AppExecute", app |-> ap, key |-> k, src |-> sa, payload |-> p] :
-            ap \in {"ex", "mini"}, k \in KeyNames, sa \in {"sA", "sB"}, p \in {"p1", "p2", "p0"}}
+            ap \in {"ex", "mini"}, k \in KeyNames, sa \in {"sA", "sB"}, p \in {"p1", "p2", "p0", "p32", "ph1"}}
 
 InitState == [Install(Blank("owner0", "op0", 0), "s1") EXCEPT !.deployed = TRUE]
 Init == st = InitState
@@ -50,7 +51,9 @@ C16_ExecOnce == ExecOnce(st)
 
 Inst == [module |-> "Gateway", Sets |-> Sets, Keys |-> Keys, Msgs |-> Msgs, Cap |-> Cap,
          Retention |-> Retention, MinDelay |-> MinDelay, Probes |-> <<>>, Apps |-> <<"ex", "mini">>,
-         Payloads |-> [p0 |-> [len |-> 0, pat |-> "asc"]],
+         \* p32: an ordinary payload that is as long as a hash; ph1: the 32 bytes of Keccak-256(p1) delivered AS payload -
+         \* an approval of p1 must not let it through, and an approval of p32 must (the payload is hashed whatever its length)
+         Payloads |-> [p0 |-> [len |-> 0, pat |-> "asc"], p32 |-> [len |-> 32, pat |-> "asc"], ph1 |-> [len |-> 32, pat |-> "hashof:p1"]],
          scale |-> [Q |-> "1", Qt |-> "1", t0 |-> 1000000]]
 ASSUME PrintT(<<"INST", ToJson(Inst)>>)
 Dump ==
